@@ -40,3 +40,22 @@ Proof.
     + split; [intros _; exact Hfl|]. eexists. split; [reflexivity|].
       cbn [an_tk an_with_task]. rewrite an_upd_same. reflexivity.
 Qed.
+
+(* error identity: whatever non-nil error the attempt's pair carries -- a handler error AnE, but also AnDiscard
+   (another pool's discard error returned by the handler as its own), AnDeadline, AnCanceled -- a decided attempt
+   a < R is followed by attempt a + 1; no error value ends the retry loop early *)
+Lemma ants_any_error_is_retried_l cfg s k a c v e s' :
+  an_fixed cfg ->
+  at_phase (an_tk s k) = AnWait a c -> an_chan_find a (at_chan (an_tk s k)) = Some (v, e) ->
+  an_is_nil e = false -> (a < ao_R (at_opts (an_tk s k)))%nat ->
+  an_step cfg s (AnDecide k true) = Some s' ->
+  at_phase (an_tk s' k) = AnEnq (S a) (an_now s) /\ at_fields (an_tk s' k) = (v, e) /\
+  at_rel (an_tk s' k) = at_rel (an_tk s k) /\ at_onerr (an_tk s' k) = at_onerr (an_tk s k).
+Proof.
+  intros Hf Hph Hch He Ha Hs. unfold an_fixed in Hf. cbn [an_step] in Hs. rewrite Hph, Hch, Hf in Hs.
+  inversion Hs; subst s'; clear Hs.
+  destruct (an_after_cases s k a (v, e)) as [[E _]|[(_ & _ & E)|(_ & E & _)]].
+  - cbn [snd] in E. congruence.
+  - rewrite E. cbn [an_tk an_with_task]. rewrite an_upd_same. cbn. repeat split; reflexivity.
+  - apply Nat.ltb_ge in E. lia.
+Qed.
